@@ -337,7 +337,16 @@ func checkSeeks(c *tablegen.Case, data []byte, dec *fmtspec.Table, wantRefs, wan
 	for i, r := range c.Refs {
 		names[i] = r.Name
 	}
-	for _, k := range refKeyClasses(names) {
+	rkeys := refKeyClasses(names)
+	if len(names) > 1000 {
+		// the saturation family: seek a spread of keys, not all 300k classes
+		var sub []string
+		for i := 0; i < len(rkeys); i += len(rkeys)/400 + 1 {
+			sub = append(sub, rkeys[i])
+		}
+		rkeys = append(sub, rkeys[len(rkeys)-3:]...)
+	}
+	for _, k := range rkeys {
 		i := sort.SearchStrings(names, k)
 		want := wantRefs[i:]
 		limit := len(want) + 1
@@ -508,6 +517,13 @@ func runWorker(prop, tier string, wi, wn int, res *workerResult) {
 	unit := 0
 	mine := func() bool { unit++; return (unit-1)%wn == wi }
 	yield := func(c *tablegen.Case) { checkTable(prop, c, res) }
+	if prop == "C01" || prop == "C02" || prop == "C14" {
+		tablegen.F5(func(c *tablegen.Case) {
+			if mine() {
+				checkTable(prop, c, res)
+			}
+		})
+	}
 	for ci, cfg := range p.cfgs {
 		if p.f1 {
 			stride := 1
